@@ -26,10 +26,13 @@ let read_guard () : guard =
 
 let read_opt () = let b = next_nat () in let w = next_q () in (b, w)
 
+let read_bnd () : bnd = let c = next_q () in let kt = next_q () in let kx = next_q () in { bc = c; bkt = kt; bkx = kx }
+
 let read_stmt () : stmt =
   match next () with
   | "TAKE" -> STake (next_z ())
-  | "DRAW" -> let lo = next_z () in let hi = next_z () in let b = next_z () in SDrawTake (lo, hi, b)
+  | "DRAW" -> let lo = read_bnd () in let hi = read_bnd () in let b = next_z () in SDrawTake (lo, hi, b)
+  | "WRANGE" -> let lo = next_z () in let ws = next_list next_q in let b = next_z () in SWRangeTake (lo, ws, b)
   | "WDRAW" -> let ws = next_list next_q in let b = next_z () in SWDrawTake (ws, b)
   | "REQ" -> let p = next_q () in let t = next_z () in SRequire (p, t)
   | "DO" -> SDo (next_nat ())
